@@ -80,16 +80,24 @@ type scenario struct {
 	Parallelism int
 	Msgs        []*msgSpec
 	Desc        string
+	Hostname    string // queue host name (Reporting-MTA of reports); "" = mx.verif.example
 }
 
 func (sc *scenario) suppressed(m *msgSpec) bool { return !sc.Bounce || m.From == "" }
+
+func (sc *scenario) hostname() string {
+	if sc.Hostname != "" {
+		return sc.Hostname
+	}
+	return "mx.verif.example"
+}
 
 func (sc *scenario) literal() map[string]any {
 	var ms []map[string]any
 	for _, m := range sc.Msgs {
 		ms = append(ms, map[string]any{"id": m.ID, "from": m.From, "utf8": m.UTF8, "rcpts": m.Rcpts, "original_rcpts": m.Orig, "body_size": m.BodySize})
 	}
-	return map[string]any{"kind": sc.Kind, "max_tries": sc.MaxTries, "bounce": sc.Bounce, "parallelism": sc.Parallelism, "messages": ms, "desc": sc.Desc}
+	return map[string]any{"kind": sc.Kind, "max_tries": sc.MaxTries, "bounce": sc.Bounce, "parallelism": sc.Parallelism, "messages": ms, "desc": sc.Desc, "queue_hostname": sc.hostname()}
 }
 
 var asciiDomains = []string{"example.org", "EXAMPLE.org", "mail.example.net", "xn--e1aybc.example", "a.b.c.example.com"}
@@ -183,7 +191,7 @@ func enqueueAndWait(t *testing.T, sc *scenario, target, bounce module.DeliveryTa
 	ql := &lineLog{}
 	opts := queue.VerifOpts{
 		Dir: dir, Target: target, MaxTries: sc.MaxTries, Parallelism: sc.Parallelism,
-		Hostname: "mx.verif.example", AutogenMsgDomain: "verif.example",
+		Hostname: sc.hostname(), AutogenMsgDomain: "verif.example",
 		Log: &mlog.Logger{Out: ql.output(), Name: "queue"},
 	}
 	if bounce != nil {
@@ -351,6 +359,7 @@ func evaluate(r *rep.Reporter, c *rep.Case, sc *scenario, res runResult, lg *mx.
 			if m.isDup(rc) {
 				r.Count("recipients_handed_twice", 1)
 			}
+			countOdd(r, sc, m, rc, st)
 		}
 		if len(v.Findings) == 0 {
 			continue
@@ -374,6 +383,46 @@ func evaluate(r *rep.Reporter, c *rep.Case, sc *scenario, res runResult, lg *mx.
 				"queue_log": tail(res.QueueLog, 60), "events": lg.Strings(300), "extra": witnessExtra, "runaway": res.Runaway,
 			})
 		}
+	}
+}
+
+// countOdd records what became of recipients with an unusual domain shape and
+// of recipients of messages whose sender has one.
+func countOdd(r *rep.Reporter, sc *scenario, m *msgSpec, rc string, st *rcptState) {
+	group := "scripted"
+	if sc.Kind != "atomic" && sc.Kind != "partial" {
+		group = "real"
+	}
+	enc := "ascii-msg"
+	if m.UTF8 {
+		enc = "smtputf8-msg"
+	}
+	out := "unreported"
+	switch {
+	case st.Delivered > 0:
+		out = "delivered"
+	case st.Reported > 0:
+		out = "reported"
+	}
+	if cls := m.rcptOddClass(rc); cls != "" {
+		r.Count("odd_rcpt_class_"+cls, 1)
+		r.Count("odd_rcpts_"+out, 1)
+		if out == "reported" {
+			r.Count("odd_rcpts_reported_"+group, 1)
+			r.Count("odd_rcpts_reported_"+enc, 1)
+			r.Count("odd_rcpt_reported_class_"+cls, 1)
+		}
+	}
+	if cls := oddClassOf(m.From); cls != "" {
+		r.Count("odd_sender_class_"+cls, 1)
+		r.Count("odd_sender_rcpts_"+out, 1)
+		if out == "reported" {
+			r.Count("odd_sender_rcpts_reported_"+group, 1)
+			r.Count("odd_sender_rcpts_reported_"+enc, 1)
+		}
+	}
+	if sc.Hostname != "" && out == "reported" {
+		r.Count("odd_queue_hostname_rcpts_reported", 1)
 	}
 }
 
@@ -433,7 +482,17 @@ func exhaustiveCase(seed uint64, k int) (*scenario, *plan, string) {
 	if p.Chance(1, 3) {
 		r1 = "u1@тест.example"
 	}
-	m := &msgSpec{ID: fmt.Sprintf("x%d", k), From: "sender@example.org", Rcpts: []string{r0, r1}, UTF8: !isASCII(r1)}
+	from := "sender@example.org"
+	// Unusual domain shapes (own generator: the other cases are unchanged).
+	switch po := prng.New(seed, uint64(k), "c01-exh-odd"); po.Intn(8) {
+	case 0:
+		r0 = "u0@" + prng.Pick(po, oddASCIIDomains).Dom
+	case 1:
+		r1 = "u1@" + pickOdd(po, !isASCII(r1)).Dom
+	case 2:
+		from = "sender@" + prng.Pick(po, oddASCIIDomains).Dom
+	}
+	m := &msgSpec{ID: fmt.Sprintf("x%d", k), From: from, Rcpts: []string{r0, r1}, UTF8: !isASCII(r1)}
 	sc := &scenario{Kind: kind, MaxTries: 3, Bounce: true, Parallelism: 1, Msgs: []*msgSpec{m}}
 	target := 1 + placement
 	// stage of the all-temporary first attempt (placement 1) and class of the attempts after the plan
@@ -514,6 +573,11 @@ func sampledCase(seed uint64, k int) (*scenario, *plan) {
 	for i := 0; i < nmsg; i++ {
 		sc.Msgs = append(sc.Msgs, genMsg(p, fmt.Sprintf("s%dm%d", k, i), 1+p.Weighted([]int{2, 4, 3, 2}), true))
 	}
+	po := prng.New(seed, uint64(k), "c01-sampled-odd")
+	for _, m := range sc.Msgs {
+		oddify(po, m)
+	}
+	sc.Hostname = oddHostname(po)
 	// failure profile
 	f := []int{8, 20, 40, 70}[p.Intn(4)] // per-point failure weight out of 100
 	mix := [][]int{{1, 1, 1}, {3, 1, 1}, {1, 3, 1}, {1, 1, 3}, {1, 0, 1}}[p.Intn(5)]
